@@ -21,9 +21,9 @@
            checks are explained by one score function of the item identifier)
    PARTIAL: that each numeric kernel (BLAS/torch products, neighbourhood selection, embedding
    look-ups) is pointwise is established by the metamorphic runs (all shipped scorers except HPF,
-   which is not installed), not by a theorem; "repeating a call returns identical scores" is
-   likewise observed (exact equality), the sites table shows no scorer entry point assigns to
-   `self` only indirectly (property C18 owns that table). *)
+   which is not installed), not by a theorem; "repeating a call returns identical scores, so
+   scoring never alters the trained model" is likewise observed (exact equality of a repeated call
+   and of one more call after the permuted and split calls), not proved. *)
 From Coq Require Import ZArith QArith List Bool Permutation.
 From LK Require Import Lib.QLib Model.C04_scatter Gen.C04_sites Proofs.C04_proofs.
 Import ListNotations.
